@@ -423,6 +423,7 @@ pub fn gen_case(rng: &mut Rng) -> JsonCase {
     let plain = rng.chance(2, 3);
     let names = gen_names(rng, ncols, plain);
     let wild = rng.chance(1, 12);
+    let far = !wild && rng.chance(1, 8);
     let n = rng.len_biased(24);
     let cfg = value_cfg();
     let mut fields = Vec::new();
@@ -437,10 +438,26 @@ pub fn gen_case(rng: &mut Rng) -> JsonCase {
         let nullable = must_null || !rng.chance(1, 5);
         let mut col = gens::gen_column(rng, &dt, n, nullable, &cfg);
         let mut r2 = rng.fork();
+        // negative-scale decimals: half of the cases avoid zero and keep the digits within the
+        // precision, so that the text is valid and parseable and the values are compared
+        let nz = r2.bool();
         walk_col(&dt, &mut col, &mut |l, v| {
+            if nz {
+                if let (DataType::Decimal32(p, s) | DataType::Decimal64(p, s) | DataType::Decimal128(p, s), Val::Int(x)) = (l, &*v) {
+                    if *s < 0 {
+                        let room = (*p as i32 + *s as i32).max(1) as u32;
+                        let m = gens::pow10_i128(room.min(30));
+                        let y = x % m;
+                        *v = Val::Int(if y == 0 { 1 } else { y });
+                    }
+                }
+            }
             tame_finite(&mut r2, l, v);
             if !wild {
                 tame_temporal(&mut r2, l, v);
+                if far {
+                    far_future(l, v);
+                }
             }
         });
         fields.push(Field::new(nm, dt, nullable));
@@ -575,7 +592,7 @@ pub fn sig_class(dt: &DataType) -> String {
         Struct(_) => "Struct".into(),
         Map(_, _) => "Map".into(),
         Union(_, _) => "Union".into(),
-        other => gens::type_class(other),
+        other => family(other),
     }
 }
 
@@ -593,8 +610,49 @@ pub fn has_dict_value_nulls(batches: &[RecordBatch]) -> bool {
     batches.iter().any(|b| b.columns().iter().any(|c| walk(&c.to_data())))
 }
 
-fn dict_sig(dict_nulls: bool, stage: &str, sig: String) -> String {
-    if dict_nulls { format!("C17|json|rt|dict-value-nulls|{stage}") } else { sig }
+/// Which part of the data makes the written text invalid JSON: write the column alone, then
+/// its children alone, ... and name the family of the innermost array that is still invalid
+/// on its own.
+pub fn isolate_invalid(arr: &ArrayRef, o: &JsonOpts) -> Option<String> {
+    use arrow_array::cast::AsArray;
+    let dt = arr.data_type().clone();
+    let schema: SchemaRef = Arc::new(Schema::new(vec![Field::new("c", dt.clone(), true)]));
+    let batch = RecordBatch::try_new(schema, vec![arr.clone()]).ok()?;
+    let written = vcore::guard(|| {
+        let wb = WriterBuilder::new().with_explicit_nulls(o.explicit_nulls).with_struct_mode(o.struct_mode());
+        let mut out = Vec::new();
+        let mut w = wb.build::<_, LineDelimited>(&mut out);
+        let r = w.write(&batch).and_then(|_| w.finish());
+        drop(w);
+        r.map(|_| out)
+    });
+    let bytes = match written {
+        Ok(Ok(b)) => b,
+        _ => return None,
+    };
+    let valid = serde_json::Deserializer::from_slice(&bytes)
+        .into_iter::<serde_json::Value>()
+        .all(|r| r.is_ok());
+    if valid {
+        return None;
+    }
+    let children: Vec<ArrayRef> = match &dt {
+        DataType::Struct(_) => arr.as_struct().columns().to_vec(),
+        DataType::List(_) => vec![arr.as_list::<i32>().values().clone()],
+        DataType::LargeList(_) => vec![arr.as_list::<i64>().values().clone()],
+        DataType::ListView(_) => vec![arr.as_list_view::<i32>().values().clone()],
+        DataType::LargeListView(_) => vec![arr.as_list_view::<i64>().values().clone()],
+        DataType::FixedSizeList(_, _) => vec![arr.as_fixed_size_list().values().clone()],
+        DataType::Map(_, _) => vec![arr.as_map().values().clone()],
+        DataType::Dictionary(_, _) => vec![arr.as_any_dictionary().values().clone()],
+        _ => vec![],
+    };
+    for c in &children {
+        if let Some(f) = isolate_invalid(c, o) {
+            return Some(f);
+        }
+    }
+    Some(sig_class(&dt))
 }
 
 /// "whilst decoding field '_': " prefixes repeat per nesting level
@@ -703,6 +761,17 @@ pub fn check_written(dt: &DataType, v: &Val, j: &J, o: &JsonOpts) -> Result<(), 
                 let mut it = b.iter();
                 for (x, f) in a.iter().zip(fs.iter()) {
                     if x.is_null() && !o.explicit_nulls {
+                        // a member that is present although the value is null: the child's null
+                        // was written as a value
+                        if let Some((k, y)) = it.clone().next() {
+                            if k == f.name() && *y != J::Null {
+                                return Err((
+                                    sig_class(f.data_type()),
+                                    "null-as-value",
+                                    format!("{}: null member {:?} written as {y:?}", f.data_type(), f.name()),
+                                ));
+                            }
+                        }
                         continue;
                     }
                     match it.next() {
@@ -796,7 +865,10 @@ fn rt_case(ctx: &mut Ctx, c: &JsonCase) {
     };
     let rows = c.case.rows();
     let row_dt = DataType::Struct(c.case.schema.fields().clone());
+    // observed input layout: a valid key pointing at a null dictionary value. What the writer
+    // makes of it varies with the surrounding types, so that family gets one signature.
     let dict_nulls = has_dict_value_nulls(&c.case.batches);
+    let dict_sig = |sig: String| if dict_nulls { "C17|json|write|failed|Dict(value-nulls)".to_string() } else { sig };
 
     // ---- independent decoders on the written text
     let serde_vals: Result<Vec<serde_json::Value>, String> = serde_json::Deserializer::from_slice(&bytes)
@@ -809,7 +881,15 @@ fn rt_case(ctx: &mut Ctx, c: &JsonCase) {
             ctx.eval();
             // which leaf types are in play (the offending token is usually a number)
             ctx.violation(
-                &dict_sig(dict_nulls, "invalid-json", format!("C17|json|write|invalid-json|{}", norm_msg(&e))),
+                &dict_sig(format!(
+                    "C17|json|write|invalid-json|{}",
+                    c.case
+                        .batches
+                        .iter()
+                        .flat_map(|b| b.columns().iter())
+                        .find_map(|a| isolate_invalid(a, o))
+                        .unwrap_or_else(|| "?".to_string())
+                )),
                 detail(&format!("serde_json rejects the writer's output: {e}"), &bytes),
             );
             return;
@@ -869,7 +949,7 @@ fn rt_case(ctx: &mut Ctx, c: &JsonCase) {
         if let Err((class, kind, e)) = check_written(&row_dt, &rv, j, o) {
             ctx.eval();
             ctx.violation(
-                &dict_sig(dict_nulls, "write-value", format!("C17|json|write|{class}|{kind}")),
+                &dict_sig(format!("C17|json|write|{kind}|{class}")),
                 detail(&format!("row {r}: {e}"), &bytes),
             );
             return;
@@ -890,7 +970,7 @@ fn rt_case(ctx: &mut Ctx, c: &JsonCase) {
             }
             ctx.eval();
             ctx.violation(
-                &format!("C17|json|rt|read-panic|{}|{}", p.file(), norm_msg(&p.msg)),
+                &format!("C17|json|read|panic|{}|{}", p.file(), err_family(&p.msg)),
                 detail(&format!("reader panic: {} @ {}", p.msg, p.loc), &bytes),
             );
             return;
@@ -903,7 +983,7 @@ fn rt_case(ctx: &mut Ctx, c: &JsonCase) {
             }
             ctx.eval();
             ctx.violation(
-                &dict_sig(dict_nulls, "read-err", format!("C17|json|rt|read-err|{}", norm_json_err(&e))),
+                &format!("C17|json|read|err|{}", err_family(&e)),
                 detail(&format!("reader error: {e}"), &bytes),
             );
             return;
@@ -914,15 +994,15 @@ fn rt_case(ctx: &mut Ctx, c: &JsonCase) {
     ctx.count("json.bytes", bytes.len() as u64);
     for b in &batches {
         if b.num_rows() > o.batch_size {
-            ctx.violation("C17|json|rt|batch-size", detail(&format!("batch of {} rows", b.num_rows()), &bytes));
+            ctx.violation("C17|json|read|batch-size", detail(&format!("batch of {} rows", b.num_rows()), &bytes));
             return;
         }
         if !same_fields(&b.schema(), &c.case.schema) {
-            ctx.violation("C17|json|rt|schema", detail(&format!("reader schema {:?}", b.schema()), &bytes));
+            ctx.violation("C17|json|read|schema", detail(&format!("reader schema {:?}", b.schema()), &bytes));
             return;
         }
         if let Err(e) = check_batch(b) {
-            ctx.violation(&format!("C17|json|rt|invalid-batch|{}", norm_msg(&e)), detail(&e, &bytes));
+            ctx.violation(&format!("C17|json|read|invalid-batch|{}", err_family(&e)), detail(&e, &bytes));
             return;
         }
     }
@@ -930,7 +1010,7 @@ fn rt_case(ctx: &mut Ctx, c: &JsonCase) {
     for (ci, ((f, e), g)) in c.case.schema.fields().iter().zip(&exp).zip(&got).enumerate() {
         if let Some((row, leaf, kind)) = diff_col(f.data_type(), e, g) {
             ctx.violation(
-                &dict_sig(dict_nulls, "value", format!("C17|json|rt|{leaf}|{kind}")),
+                &format!("C17|json|roundtrip|{kind}|{leaf}"),
                 detail(
                     &format!("column {ci} ({}) row {row}: expected {:?} got {:?}", f.data_type(), e.get(row), g.get(row)),
                     &bytes,
@@ -1633,13 +1713,13 @@ pub fn run_doc(ctx: &mut Ctx, k: u64) {
         let batches = match vcore::guard(move || read_all(rb, bytes)) {
             Err(p) => {
                 ctx.violation(
-                    &format!("C17|json|doc|read-panic|{}|{}", p.file(), norm_msg(&p.msg)),
+                    &format!("C17|json|read|panic|{}|{}", p.file(), err_family(&p.msg)),
                     dump(format!("reader panic {} @ {}", p.msg, p.loc)),
                 );
                 continue;
             }
             Ok(Err(e)) => {
-                ctx.violation(&format!("C17|json|doc|read-err|{}", norm_json_err(&e)), dump(format!("reader error: {e}")));
+                ctx.violation(&format!("C17|json|read|err|{}", err_family(&e)), dump(format!("reader error: {e}")));
                 continue;
             }
             Ok(Ok(b)) => b,
@@ -1647,7 +1727,7 @@ pub fn run_doc(ctx: &mut Ctx, k: u64) {
         let mut bad = false;
         for b in &batches {
             if let Err(e) = check_batch(b) {
-                ctx.violation(&format!("C17|json|doc|invalid-batch|{}", norm_msg(&e)), dump(e));
+                ctx.violation(&format!("C17|json|doc|invalid-batch|{}", err_family(&e)), dump(e));
                 bad = true;
                 break;
             }
@@ -1661,7 +1741,7 @@ pub fn run_doc(ctx: &mut Ctx, k: u64) {
         for (ci, ((f, e), g)) in d.schema.fields().iter().zip(&exp_cols).zip(&got).enumerate() {
             if let Some((row, leaf, kind)) = diff_col(f.data_type(), e, g) {
                 ctx.violation(
-                    &format!("C17|json|doc|{leaf}|{kind}"),
+                    &format!("C17|json|doc|{kind}|{leaf}"),
                     dump(format!("column {ci} ({}) row {row}: document denotes {:?}, reader returned {:?}", f.data_type(), e.get(row), g.get(row))),
                 );
                 bad = true;
